@@ -118,8 +118,8 @@ static void op_allocparse(int nt, char **t) {
 #define STAP(fn) LIB(pr = fn(&sta, &f)); printf(",%d", pr < 0 ? (pr == -ENOMEM ? -12 : -1) : pr); LIB(libwifi_free_sta(&sta));
         BSSP(libwifi_parse_beacon) BSSP(libwifi_parse_probe_resp) BSSP(libwifi_parse_assoc_resp) BSSP(libwifi_parse_reassoc_resp)
         STAP(libwifi_parse_probe_req) STAP(libwifi_parse_assoc_req) STAP(libwifi_parse_reassoc_req)
-        { struct libwifi_parsed_deauth d; LIB(pr = libwifi_parse_deauth(&d, &f)); printf(",%d", pr < 0 ? (pr == -ENOMEM ? -12 : -1) : pr); LIB(free(d.tags.parameters)); }
-        { struct libwifi_parsed_disassoc d; LIB(pr = libwifi_parse_disassoc(&d, &f)); printf(",%d", pr < 0 ? (pr == -ENOMEM ? -12 : -1) : pr); LIB(free(d.tags.parameters)); }
+        { struct libwifi_parsed_deauth d; LIB(pr = libwifi_parse_deauth(&d, &f)); printf(",%d", pr < 0 ? (pr == -ENOMEM ? -12 : -1) : pr); LIB(libwifi_free_parsed_deauth(&d)); }
+        { struct libwifi_parsed_disassoc d; LIB(pr = libwifi_parse_disassoc(&d, &f)); printf(",%d", pr < 0 ? (pr == -ENOMEM ? -12 : -1) : pr); LIB(libwifi_free_parsed_disassoc(&d)); }
         { struct libwifi_data d; LIB(pr = libwifi_parse_data(&d, &f)); printf(",%d", pr < 0 ? (pr == -ENOMEM ? -12 : -1) : pr); LIB(libwifi_free_data(&d)); }
         { struct libwifi_wpa_auth_data d; LIB(pr = libwifi_get_wpa_data(&f, &d)); printf(",%d", pr < 0 ? (pr == -ENOMEM ? -12 : -1) : pr); LIB(libwifi_free_wpa_data(&d)); }
     }
